@@ -31,7 +31,7 @@ Gen rand_gen(Rng& r, const Paths64& S, const Paths64& C, int R, int kind, bool& 
   Gen g; static const char* names[] = {"perm", "rot", "dup", "close", "swap", "rev", "tr", "tp", "mx", "sc"};
   if (kind == 9 && scaled) kind = 6;
   g.kind = names[kind];
-  auto pickpath = [&](long long& who, long long& idx) { who = (C.empty() || r.coin()) ? 1 : 2; const Paths64& ps = who == 1 ? S : C; idx = r.range(1, (long long)ps.size()); return ps[idx - 1].size(); };
+  auto pickpath = [&](long long& who, long long& idx) { who = (C.empty() || (!S.empty() && r.coin())) ? 1 : 2; const Paths64& ps = who == 1 ? S : C; idx = r.range(1, (long long)ps.size()); return ps[idx - 1].size(); };
   if (g.kind == "perm") { for (size_t i = 0; i < S.size(); ++i) g.p1.push_back(i + 1); for (size_t i = 0; i < C.size(); ++i) g.p2.push_back(i + 1);
     for (size_t i = g.p1.size(); i > 1; --i) std::swap(g.p1[i - 1], g.p1[r.range(0, i - 1)]); for (size_t i = g.p2.size(); i > 1; --i) std::swap(g.p2[i - 1], g.p2[r.range(0, i - 1)]);
     if (g.p1.size() == 2) std::swap(g.p1[0], g.p1[1]); }
@@ -44,11 +44,12 @@ Gen rand_gen(Rng& r, const Paths64& S, const Paths64& C, int R, int kind, bool& 
   return g;
 }
 
-void emit_case(std::ostream& os, long long id, const Paths64& S, const Paths64& C, const std::vector<Point64>& pts, bool nogp, long long& nexec) {
-  Ev ce("Case"); ce.kn("id", id).ks("fam", "repr").kn("emb", 0).kn("ps", 1).kv("subj", jpaths(S)).kv("clip", jpaths(C)).kv("pts", jpath(pts));
+void emit_case(std::ostream& os, long long id, const Paths64& S0, const Paths64& C0, const std::vector<Point64>& pts, bool nogp, long long& nexec, int embid = 0) {
+  const Emb& emb = emb_table()[embid]; Paths64 S = emb_paths(emb, S0), C = emb_paths(emb, C0);
+  Ev ce("Case"); ce.kn("id", id).ks("fam", "repr").kn("emb", embid).kn("ps", 1).kv("subj", jpaths(S0)).kv("clip", jpaths(C0)).kv("pts", jpath(pts));
   if (nogp) ce.kn("nogp", 1);
   os << ce.str() << "\n";
-  OutReg reg; reg.emb = &emb_table()[0]; reg.pts = &pts; reg.ps = 1; reg.os = &os;
+  OutReg reg; reg.emb = &emb; reg.pts = &pts; reg.ps = 1; reg.os = &os;
   std::vector<std::string> xs; Paths64 none;
   for (int ct = 1; ct <= 4; ++ct) for (int fr = 0; fr <= 3; ++fr) for (int pc = 0; pc <= 1; ++pc) for (int rs = 0; rs <= 1; ++rs) {
     ExecRes p = run_exec(S, none, C, ct, fr, pc, rs, nullptr); ++nexec;
@@ -63,12 +64,13 @@ int cmd_repr(const Args& a) {
   std::ofstream os(args(a, "out", "/dev/stdout")); long long nexec = 0, id = 0, nrel = 0;
   for (long long b = 0; b < n; ++b) {
     Paths64 S, C; if (!gen_gps(r, R, 2, 6, S, C)) continue;
+    if (b % 5 == 3) S.clear(); else if (b % 5 == 4) C.clear();      // an empty operand is in general position too (swap / algebra with the empty set)
     Paths64 all = S; all.insert(all.end(), C.begin(), C.end());
     Rng pr(hash_paths(all) ^ r.s); std::vector<Point64> pts; std::set<std::pair<int64_t, int64_t>> seen;
     for (auto& p : all) for (auto& q : p) if ((int)pts.size() < npts / 2) { Point64 c((int64_t)(q.x + pr.range(-6, 6)), (int64_t)(q.y + pr.range(-6, 6))); if (seen.insert({c.x, c.y}).second) pts.push_back(c); }
     while ((int)pts.size() < npts) { Point64 c((int64_t)pr.range(-4, R + 4), (int64_t)pr.range(-4, R + 4)); if (seen.insert({c.x, c.y}).second) pts.push_back(c); }
     std::string what = "\"case\":{\"subj\":" + jpaths(S) + ",\"clip\":" + jpaths(C) + ",\"emb\":0}";
-    long long id0 = id; id += 1 + 10 + ncomp;
+    long long id0 = id; id += 1 + 2 + 10 + ncomp;
     guarded(os, what, 300, [&, id0](std::ostream& os) { long long id = id0;
     emit_case(os, ++id, S, C, pts, false, nexec);
     os << Ev("Base").str() << "\n" << Ev("Alg").str() << "\n";
@@ -78,6 +80,10 @@ int cmd_repr(const Args& a) {
       std::vector<Gen> gs; Paths64 s2 = S, c2 = C; bool sc = false; int len = (int)r.range(2, 4);
       for (int j = 0; j < len; ++j) { Gen g = rand_gen(r, s2, c2, R, (int)r.range(0, 9), sc); apply(g, s2, c2); gs.push_back(g); }
       lists.push_back(gs);
+    }
+    for (int embid : {2, 6}) {   // the whole input under a big affine embedding (coordinates up to 2^40, differences up to 2^36)
+      emit_case(os, ++id, S, C, pts, true, nexec, embid);
+      os << Ev("Rel").kv("gs", "[[\"emb\"," + jnum(embid) + "]]").str() << "\n"; ++nrel;
     }
     for (auto& gs : lists) {
       Paths64 s2 = S, c2 = C; std::vector<Point64> p2 = pts;
